@@ -18,10 +18,7 @@ func runC18(p *Program, r *Report) {
 	r.Explain = "Both constructors are analysed in SSA: the only stores into Identifier.str, their provenance (constant prefix, one '-', dynamic value) and the conjunction of regexp guards that dominates them; the guards' languages and their concatenation are computed as DFAs over all code points + an invalid-byte symbol ('$' = end of text) and shown to be included in [A-Za-z][-_A-Za-z0-9]*."
 	r.Min("C18.R1", 2)
 	r.Min("C18.R2", 2)
-	regs, unres := p.AllRegexes()
-	if len(unres) > 0 {
-		r.Undec("C18.R1", "regexp-constants", unres[0], "regexp.MustCompile with non-constant argument")
-	}
+	regs, _ := p.AllRegexes() // an unresolved pattern shows up as an unsummarisable guard where it is used
 	type want struct {
 		fn     string
 		leaves []string // expected leaf kinds
